@@ -20,6 +20,11 @@ trees = {m.name: m.tree for m in repo.modules.values()}
 out["__attrs__"] = attribute_sigs(trees)
 out["__modnames__"] = module_name_sigs(trees)
 REF_FILE.write_text(json.dumps(out, indent=0, sort_keys=True))
+from sa.core.shell_alpha import var_sigs, first_assignment_order, REF as SHELL_REF
+shell = {}
+for p in sorted(Path("/repo/func_adl_xAOD/template").rglob("runner.sh")):
+    shell["/".join(p.parts[-3:])] = dict(var_sigs(p.read_text()), __order__=first_assignment_order(p.read_text()))
+SHELL_REF.write_text(json.dumps(shell, indent=0, sort_keys=True))
 import subprocess
 head = subprocess.run(["git", "-C", "/repo", "rev-parse", "HEAD"], capture_output=True, text=True).stdout.strip()
 (REF_FILE.parent / "reference_head.txt").write_text(head + "\n")
